@@ -402,7 +402,9 @@ func runWidenE3(c *engine.Ctx, getPKI func(t *engine.T) map[string]*family, smOn
 		sess := pkcs7.DefaultSession{}
 		for i, v := range []int{0, 2, 1} {
 			if err == nil {
-				err = ed.AddRecipient(ids[i].cert, v, func(cert *smx509.Certificate, key []byte) ([]byte, error) { return sess.EncryptdDataKey(key, cert, nil) })
+				err = ed.AddRecipient(ids[i].cert, v, func(cert *smx509.Certificate, key []byte) ([]byte, error) {
+					return sess.EncryptdDataKey(key, cert, nil)
+				})
 			}
 		}
 		var art []byte
